@@ -10,7 +10,8 @@ import numpy as np
 from vf.refmodel import gates as G
 from vf.refmodel import linalg as L
 
-SPECIAL_EXP = [0.0, 0.25, -0.25, 0.5, -0.5, 1.0, -1.0, 2.0, 4.0, 1e-9, 1 - 1e-9, 1 + 1e-9, 1 / 3, 1.5, -1.5, 3.0]
+# (whole numbers beyond one period too: shortcuts keyed on "exponent == 1 modulo the period" must keep the global shift)
+SPECIAL_EXP = [0.0, 0.25, -0.25, 0.5, -0.5, 1.0, -1.0, 2.0, 4.0, 1e-9, 1 - 1e-9, 1 + 1e-9, 1 / 3, 1.5, -1.5, 3.0, 5.0, -3.0, 7.0, -4.0]
 SPECIAL_ANG = [0.0, math.pi / 2, -math.pi / 2, math.pi, -math.pi, math.pi / 4, 2 * math.pi, math.pi / 6, 1e-9, 3 * math.pi / 2]
 SHIFTS = [0.0, 0.0, 0.0, 0.0, 0.5, -0.5, 0.25, -1.0]
 
